@@ -27,8 +27,19 @@ def reader_sections(F, S):
     out = []
     rv = F.fn(VOL + "::ReadVolHeader", nparams=0)
     tags = []
-    for nd in sorted([n for n in rv.nodes if n["k"] in CALLS and n.get("fname") == "ReadTag"], key=lambda n: n["id"]):
-        t = rv.term(nd["args"][0])
+    def tag_calls(fn, depth=2):
+        """ReadTag calls in execution (source) order, following calls to helpers on the same object."""
+        res = []
+        for n in sorted([n for n in fn.nodes if n["k"] in CALLS], key=lambda n: n["id"]):
+            if n.get("fname") == "ReadTag":
+                res.append((fn, n))
+            elif depth > 0 and n["k"] == "CXXMemberCallExpr" and "obj" in n and fn.term(n["obj"]) == ("this",):
+                for cal in F.callees(n):
+                    if cal.cfg and cal.cls == VOL and cal.name != "ReadTag":
+                        res += tag_calls(cal, depth - 1)
+        return res
+    for (rv_, nd) in tag_calls(rv):
+        t = rv_.term(nd["args"][0])
         tags.append(t[2][0][1].split("::")[-1] if t[0] == "ctor" and t[2] and t[2][0][0] == "global" else (t[1].split("::")[-1] if t[0] == "global" else fmt_term(t)))
     inst = VOL + "::ReadVolHeader#section-order"
     want = ["TagVOL_", "TagVOLH", "TagVOLS", "TagVOLI"]
@@ -39,7 +50,9 @@ def reader_sections(F, S):
     rt = F.fn(VOL + "::ReadTag", nparams=1)
     eng = Engine(F, S)
     ex = eng.analyze(rt, frozenset()) or frozenset()
-    tagchk = any(f[0] == "==" and "tagName" in repr(f) and ".tag" in fmt_fact(f) for f in ex) or any(f[0] == "ev" and f[1] == "passed" and "tagName" in repr(f) for f in ex)
+    from ..flow import mentions
+    tp = ("var", rt.params[0]["n"], rt.params[0]["d"])
+    tagchk = any(f[0] == "==" and mentions(f, tp) and ".tag" in fmt_fact(f) for f in ex) or any(f[0] == "ev" and f[1] == "passed" and mentions(f[2], tp) for f in ex)
     inst = VOL + "::ReadTag#tag-compared"
     if tagchk:
         out.append(ok("R-MUSTCALL", inst, rt.loc(rt.body), rt.qn, "a section whose tag differs from the expected one is refused", "refusal on every returning path"))
